@@ -18,7 +18,7 @@ tvars == <<vars, tid, l>>
 ToSet(s) == {s[i] : i \in DOMAIN s}
 ParamOf(h) == [ n |-> h.n, cap |-> h.cap, conc |-> h.conc, retexc |-> h.retexc, fail |-> ToSet(h.fail),
                 prefail |-> ToSet(h.prefail), srcfail |-> h.srcfail, srcbase |-> h.srcbase,
-                maybreak |-> h.maybreak, mode |-> h.mode ]
+                maybreak |-> h.maybreak, mode |-> h.mode, subfail |-> h.subfail ]
 
 Evs == TraceLog[tid].ev
 E == Evs[l]
@@ -40,6 +40,7 @@ TSrcEnd   == Is("SrcEnd") /\ FeederSrcEnd /\ Step
 TSrcRaise == Is("SrcRaise") /\ FeederSrcRaise /\ Step
 TPreFail  == Is("PreFail") /\ held = E.i /\ FeederPreFail /\ Step
 TSubmit   == Is("Submit") /\ held = E.i /\ FeederSubmit /\ Step
+TSubFail  == Is("SubFail") /\ held = E.i /\ FeederSubmitRaise /\ Step
 TPut      == /\ Is("Put")
              /\ \/ E.t = "item" /\ heldF # 0 /\ FeederPut /\ LastOf(q').x = E.x /\ LastOf(q').f = E.f
                 \/ E.t = "end" /\ FeederPutEnd
@@ -78,7 +79,7 @@ TSilent == /\ \/ FeederCheckStop \/ ConsSetStop \/ FinDrainEmpty \/ WorkerTake
 TSilentAsync == p.mode = "async" /\ ConsAwait /\ Silent
 
 TraceNext ==
-  \/ TNext \/ TPull \/ TSrcEnd \/ TSrcRaise \/ TPreFail \/ TSubmit \/ TPut \/ TWStart \/ TWFinish
+  \/ TNext \/ TPull \/ TSrcEnd \/ TSrcRaise \/ TPreFail \/ TSubmit \/ TSubFail \/ TPut \/ TWStart \/ TWFinish
   \/ TGet \/ TAwait \/ TYield \/ TBreak \/ TCancel \/ TClosed \/ TExecShut
   \/ TSilent \/ TSilentAsync
 
